@@ -27,10 +27,10 @@ var rules = []*Rule{
 	{ID: "R11", Title: "COPY-LOOP: every record read is accounted for", Props: []string{"C01", "C02", "C05", "C07", "C08", "C11", "C12", "C17"}, Run: func(p *Prog) []Ob {
 		return append(append(append(ruleR11(p), p.deletedSizeVersion()...), p.publishLoopObligations()...), append(append(append(p.indexTimeSeed(), p.wholeIndexCompare()...), p.scanBeforeVerdict()...), p.checkAndRecoverVerdicts()...)...)
 	}},
-	{ID: "R12", Title: "EFFECT-CONFINEMENT: who can change a log file", Props: []string{"C19", "C20", "C07", "C11", "C13"}, Run: func(p *Prog) []Ob { return append(ruleR12(p), p.indexConfinement()...) }},
+	{ID: "R12", Title: "EFFECT-CONFINEMENT: who can change a log file", Props: []string{"C19", "C20", "C07", "C11", "C13", "C08"}, Run: func(p *Prog) []Ob { return append(ruleR12(p), p.indexConfinement()...) }},
 	{ID: "R15", Title: "FLOCK-PAIRING", Props: []string{"C19", "C02"}, Run: func(p *Prog) []Ob { return append(ruleR15(p), p.openWrappersRelease()...) }},
 	{ID: "R14", Title: "NOTIFY: publish-then-set, probe-under-token", Props: []string{"C18"}, Run: ruleR14},
-	{ID: "R13", Title: "SEGMENT-NAMES: what New prints, Find parses, and sorts", Props: []string{"C01", "C02", "C20", "C05"}, Run: func(p *Prog) []Ob { return append(ruleR13(p), p.findAdoptsAll()) }},
+	{ID: "R13", Title: "SEGMENT-NAMES: what New prints, Find parses, and sorts", Props: []string{"C01", "C02", "C20", "C05", "C12"}, Run: func(p *Prog) []Ob { return append(ruleR13(p), p.findAdoptsAll()) }},
 	{ID: "R16", Title: "INDEX-OPTIONAL: an index file may always be missing", Props: []string{"C11", "C07", "C08", "C20"}, Run: func(p *Prog) []Ob {
 		return append(append(ruleR16(p), p.reindexThresholdObligation()), p.rebuildUnderIndexLock()...)
 	}},
